@@ -123,7 +123,7 @@ impl CoreDID {
 
   /// Validates whether a string is a valid [`DID`] method name.
   pub fn valid_method_name(value: &str) -> Result<(), Error> {
-    if !value.chars().all(is_char_method_name) {
+    if value.is_empty() || !value.chars().all(is_char_method_name) {
       return Err(Error::InvalidMethodName);
     }
     Ok(())
@@ -138,15 +138,18 @@ impl CoreDID {
 
   /// Validates whether a string is a valid [`DID`] method-id.
   pub fn valid_method_id(value: &str) -> Result<(), Error> {
-    // if !value.chars().all(is_char_method_id) {
-    //   return Err(Error::InvalidMethodId);
-    // }
+    if value.is_empty() || pct_skip_overruns(value.as_bytes()) {
+      return Err(Error::InvalidMethodId);
+    }
     let mut chars = value.chars();
     while let Some(c) = chars.next() {
       match c {
         '%' => {
+          // pct-encoded = "%" HEXDIG HEXDIG (`from_str_radix` would also take a sign or a single digit)
           let digits = chars.clone().take(2).collect::<String>();
-          u8::from_str_radix(&digits, 16).map_err(|_| Error::InvalidMethodId)?;
+          if digits.len() != 2 || !digits.chars().all(|c| c.is_ascii_hexdigit()) {
+            return Err(Error::InvalidMethodId);
+          }
           chars.next();
           chars.next();
         }
